@@ -91,11 +91,15 @@ claimed = {
    note="PARTIAL: the round trip of the contents of the 17 message codecs and of the body prefix is NOT decided by this check (no byte-level relational proof over Encode/Decode pairs with strings and collections was completed); lengths are C03, flag/body consistency C20, compression wrappers C08, constants C19.",
    technique="contract-based deductive verification: round-trip lemma functions over the real encoder and decoder with completeness clauses for in-memory buffers; loop invariant for the table-spec predicate",
    design="DESIGN.md §11 C01"),
+ "C09": dict(
+   text="Proof, for the sequential mechanism of the in-flight table (any sequence of handler operations one after another, by induction over a representation invariant): the pool is created holding exactly 1..N once each; every accepted request carries an id in 1..N (automatic assignment) or its caller-chosen id, which no unanswered request carries, and that id leaves the pool while nothing else changes; a send when the pool is empty and a send reusing the id of an unanswered request are refused; a refused send leaves table and pool unchanged - this obligation failed on the original tree (the id borrowed before the refusal leaked: N=1, explicit send 1, managed send refused, answer 1, managed send -> 'no stream id available' for ever) and is fixed; the final frame of a response frees the entry and returns an automatically assigned id to the pool, non-final pages and unknown ids change nothing.",
+   note="SEQUENTIAL ONLY: interleavings of concurrent senders and the responder, the RW lock, timeouts and close() are not decided (go statements ignored, locks and atomics sequential); the buffered channel is modelled as a bounded multiset (FIFO abstracted); the per-request object (its goroutine, timer and frame channel) is used through assumed contracts; release-cannot-fail after the final frame needs a cardinality argument that is not under proof.",
+   technique="contract-based deductive verification: representation invariant over a sequential multiset model of the buffered channel, quantified frame clauses over all ids, loop invariant for the filling loop",
+   design="DESIGN.md §11 C09"),
 }
 
 not_applicable = {
- "C09": "the in-flight handler table is driven by goroutines, channels, select and a mutex (client/inflight.go, client/client.go): its statement is over histories of concurrent Send/receive/timeout/Close calls; the verifier's subset has no goroutines or channels (DESIGN.md §4 C09/§11), and the sequential channel tier planned there was not built",
- "C10": "same mechanism as C09 (stream-id allocation and release under concurrent senders, timeouts and close): a whole-history property over goroutine schedules, outside what a per-call contract decides; not built (DESIGN.md §11)",
+ "C10": "delivery of each response to exactly the request with the same stream id runs through per-request goroutines, timers and channels of frames (client/inflight.go onFrameReceived, client/client.go receive loop): a whole-history property over goroutine schedules; the sequential channel model covers only channels of scalar elements, and no per-call contract states 'delivered exactly once to that request' without a ghost history of deliveries that was not built (DESIGN.md §11)",
  "C16": "quantifies over crash points and schedules of goroutines, timers and sockets; no pre/postcondition or data-structure invariant over one call expresses it (DESIGN.md §4 C16)",
 }
 pending_reason = "contracts for this property are not yet under machine check in this commit; not claimed until its obligations discharge (DESIGN.md §8 order of work)"
